@@ -39,6 +39,8 @@ class Cell:
     def __init__(self, v=None): self.v = v
 class CharsIt:
     def __init__(self, s, i=0): self.s, self.i = s, i
+class UninitBox:
+    def __init__(self): self.arr = None
 class Unit: pass
 UNIT = Unit()
 
@@ -129,6 +131,8 @@ def top_find(s, sub, last=False):
 
 def parse_place(s):
     s = s.strip()
+    if s.startswith('(fake) '): s = s[7:]
+    if s.startswith('fake shallow '): s = s[13:]
     m = LOCAL.match(s)
     if m: return ('local', int(m.group(1)))
     if s.endswith(']'):
@@ -163,6 +167,23 @@ def parse_char(body):
         if body[1] == 'u': return int(body[3:-1], 16)
         if body[1] == 'x': return int(body[2:], 16)
     return ord(body)
+
+def mask_literals(st):
+    out = list(st); i = 0
+    while i < len(st):
+        c = st[i]
+        if c == '"':
+            j = i + 1
+            while j < len(st) and st[j] != '"':
+                if st[j] == '\\': out[j] = 'x'; j += 1
+                out[j] = 'x'; j += 1
+            i = j
+        elif c == "'" and i + 2 < len(st) and st[i+2] == "'":
+            out[i+1] = 'x'; i += 2
+        elif c == "'" and i + 3 < len(st) and st[i+1] == '\\' and st[i+3] == "'":
+            out[i+1] = out[i+2] = 'x'; i += 3
+        i += 1
+    return ''.join(out)
 
 class Interp:
     def __init__(self, fns, models, enums=None):
@@ -217,17 +238,28 @@ class Interp:
             idx = p[2]
             def get():
                 o = g()
+                if isinstance(o, UninitBox): return o
+                if not isinstance(o, Agg) and idx == 0: return o   # transparent newtype over a slice (Latin1Str)
                 return o.fields[idx]
             def set(v):
-                g().fields[idx] = v
+                o = g()
+                if isinstance(o, UninitBox): o.arr = v; return
+                o.fields[idx] = v
             return get, set
         if k == 'downcast':
             return self.place_ref(ctx, p[1], frame)
         if k == 'index':
             g, _ = self.place_ref(ctx, p[1], frame)
-            ig, _ = self.place_ref(ctx, parse_place(p[2]), frame)
+            mconst = re.match(r'^(-?)(\d+) of (\d+)$', p[2])
+            if mconst:
+                kk = int(mconst.group(2)); neg = mconst.group(1) == '-'
+                ig = lambda: BV(kk, 64)
+            else:
+                neg = False
+                ig, _ = self.place_ref(ctx, parse_place(p[2]), frame)
             def lst():
                 o = g()
+                while isinstance(o, Ref): o = o.get()
                 if isinstance(o, SliceV): return o.base, o.lo
                 if isinstance(o, VecV): return o.items, 0
                 if isinstance(o, StrV): return o.b, 0
@@ -235,6 +267,10 @@ class Interp:
                 raise Unsupported('index into ' + repr(o))
             def get():
                 l, off = lst(); i = ctx.concretize(ig())
+                if neg:
+                    o = g()
+                    while isinstance(o, Ref): o = o.get()
+                    return l[off + self.seq_len(o) - i]
                 return l[off + i]
             def set(v):
                 l, off = lst(); i = ctx.concretize(ig())
@@ -308,7 +344,7 @@ class Interp:
         if s.startswith('no_retag '): s = s[9:]
         if s.startswith('&'):
             rest = s[1:]
-            for pre in ('mut ', 'raw const ', 'raw mut '):
+            for pre in ('mut ', 'raw const ', 'raw mut ', 'fake shallow ', 'fake '):
                 if rest.startswith(pre): rest = rest[len(pre):]
             g, st = self.place_ref(ctx, parse_place(rest), frame)
             # reference to heap-like object: keep identity
@@ -398,6 +434,7 @@ class Interp:
         return out
 
     def seq_len(self, v):
+        while isinstance(v, Ref): v = v.get()
         if isinstance(v, SliceV): return v.hi - v.lo
         if isinstance(v, VecV): return len(v.items)
         if isinstance(v, StrV): return len(v.b)
@@ -424,6 +461,10 @@ class Interp:
         ctx.cur_key = key
         if key in self.models:
             return self.models[key](self, ctx, *args)
+        strict = getattr(self, 'resolve_strict', None)
+        if strict:
+            fn = strict(key)
+            if fn is not None: return self.call_fn(ctx, fn, args)
         for pat, f in self.models.items():
             if pat.startswith('re:') and re.match(pat[3:], key): return f(self, ctx, *args)
         try:
@@ -486,9 +527,10 @@ class Interp:
         k = st.find(') -> [return: bb')
         if k > 0 and ' = ' in st[:k]:
             # find the '(' matching st[k]
+            mst = mask_literals(st)
             d = 0; j = k
             while j >= 0:
-                ch = st[j]
+                ch = mst[j]
                 if ch == ')' and not (j >= 2 and st[j-1] == "'" and False): d += 1
                 elif ch == '(':
                     d -= 1
